@@ -435,6 +435,10 @@ func startServers(cfg *config.Config, stats metrics.Provider) {
 				lastPorts := []string{}
 				for {
 					time.Sleep(l.Refresh)
+					if atomic.LoadInt32(&shuttingDown) > 0 {
+						// the listeners are being shut down: do not open them again
+						return
+					}
 					table := route.GetTable()
 					ports := []string{}
 					for target, rts := range table {
